@@ -33,6 +33,11 @@ var codecRace = []string{`^io/`, `^internal/convert/`, `^rpc/core/.*codec`}
 var transportRace = []string{`^rpc/socket/`, `^rpc/udp/`, `^rpc/websocket/`, `^rpc/http/`, `^rpc/mock/`, `^rpc/core/`}
 
 var props = map[string]propCfg{
+	"C10": {Pkg: "checks/c10", Level: "fault_enumeration", Passes: []pass{
+		{Name: "plain", Shards: 16, TimeoutS: 1500, CaseTimeoutS: 180},
+		{Name: "fasthttp-client", Shards: 8, TimeoutS: 900, CaseTimeoutS: 180, Env: []string{"VERIF_FASTHTTP=1"}},
+		{Name: "race", Race: true, Shards: 16, TimeoutS: 1800, CaseTimeoutS: 300, Env: []string{"VERIF_LIGHT=1"}},
+	}, RaceFiles: append([]string{`^rpc/plugins/reverse/`, `^rpc/plugins/timeout/`}, transportRace...)},
 	"C11": {Pkg: "checks/c11", Level: "fault_enumeration", Passes: []pass{
 		{Name: "plain", Shards: 16, TimeoutS: 900, CaseTimeoutS: 120, UlimitVKB: 8 << 20},
 		{Name: "fasthttp-client", Shards: 8, TimeoutS: 900, CaseTimeoutS: 120, Env: []string{"VERIF_FASTHTTP=1"}},
